@@ -5,13 +5,15 @@
 #include <stdlib.h>
 #include <string.h>
 
-#define NSIG 17
+#define NSIG 19
 static vh_sig_t sigs[NSIG];
 static const scpi_command_t cmds[] = {
     { "T1", vh_handler, 1 }, { "TXT", vh_handler, 2 }, { "BLK", vh_handler, 3 }, { "NUM", vh_handler, 4 }, { "Q?", vh_handler, 5 },
     { "QF?", vh_handler, 6 }, { "QP?", vh_handler, 7 }, { "QE?", vh_handler, 8 }, { "QUB?", vh_handler, 9 }, { "QOB?", vh_handler, 10 },
     { "SYSTem:Q2?", vh_handler, 11 }, { "SYSTem:CH", vh_handler, 12 }, { "*IDN?", vh_handler, 13 }, { "CERR", vh_handler, 14 }, { "QS?", vh_handler, 15 },
     { "SYSTem:SUB:Q3?", vh_handler, 16 }, { "QD?", vh_handler, 17 },
+    /* overlapping entries: `TEST:CHAN?` is accepted by both, the first one wins whatever ran before */
+    { "TEST:CHANnel?", vh_handler, 18 }, { "TEST:CHANnel#?", vh_handler, 19 }, { "Q?", vh_handler, 19 },
     SCPI_CMD_LIST_END
 };
 static const char blk[] = "0123456789;\n\"x";
@@ -36,6 +38,8 @@ static void init_sigs(void) {
     sigs[14].nouts = 2; sigs[14].outs[0].kind = VO_BLOCK_STREAM; sigs[14].outs[0].data = blk; sigs[14].outs[0].len = sizeof blk - 1; sigs[14].outs[0].split[0] = 4; sigs[14].outs[0].split[1] = 0; sigs[14].outs[1].kind = VO_INT32; sigs[14].outs[1].u = 5;
     /* block data without a header must be refused whatever an earlier unit left announced */
     sigs[16].nouts = 3; sigs[16].outs[0].kind = VO_INT32; sigs[16].outs[0].u = 1; sigs[16].outs[1].kind = VO_BLOCK_DATA_ONLY; sigs[16].outs[1].data = blk; sigs[16].outs[1].len = 3; sigs[16].outs[2].kind = VO_INT32; sigs[16].outs[2].u = 2;
+    sigs[17].nouts = 1; sigs[17].outs[0].kind = VO_MNEM; sigs[17].outs[0].data = "ALL"; sigs[17].outs[0].len = 3;
+    sigs[18].want_numbers = 1; sigs[18].nouts = 1; sigs[18].outs[0].kind = VO_INT32; sigs[18].outs[0].u = 19;
     sigs[15].nouts = 1; sigs[15].outs[0].kind = VO_UINT64; sigs[15].outs[0].base = 2; sigs[15].outs[0].u = 5;
 }
 
@@ -52,7 +56,7 @@ static void gen_blk(vh_rng_t * rng, vh_buf_t * b) {
 /* kind of unit; 'bad' units raise errors or leave things unfinished */
 static void gen_unit(vh_rng_t * rng, vh_buf_t * b, int * flags) {
     static const char * const nums[] = { "1", "-2.5", "3e2", "10 V", "2.5MV", "MIN", "#HFF", "7 FOO", "\"str\"" };
-    switch (vh_below(rng, 23)) {
+    switch (vh_below(rng, 26)) {
         case 0: vh_buf_adds(b, "T1 "); gen_str(rng, b); if (vh_chance(rng, 1, 2)) { vh_buf_adds(b, ", "); vh_buf_adds(b, nums[vh_below(rng, 9)]); } break;
         case 1: vh_buf_adds(b, "TXT "); gen_str(rng, b); break;
         case 2: vh_buf_adds(b, "BLK "); gen_blk(rng, b); if (vh_chance(rng, 1, 3)) vh_buf_adds(b, ",12"); break;
@@ -75,6 +79,9 @@ static void gen_unit(vh_rng_t * rng, vh_buf_t * b, int * flags) {
         case 19: vh_buf_adds(b, vh_chance(rng, 1, 2) ? "$" : "T1 1,,2"); *flags |= 2; break; /* -101 */
         case 20: vh_buf_adds(b, vh_chance(rng, 1, 2) ? "SYST:" : "*"); *flags |= 2 | 8; break; /* incomplete header */
         case 21: vh_buf_adds(b, "QD?"); *flags |= 1 | 2 | 32; break;
+        case 23: vh_buf_adds(b, vh_chance(rng, 1, 2) ? "TEST:CHAN?" : ":test:channel?"); *flags |= 1 | 8 | 64; break;                       /* accepted by two entries */
+        case 24: vh_buf_printf(b, "TEST:CHAN%u?", 1 + vh_below(rng, 9)); *flags |= 1 | 8 | 128; break;                                          /* accepted by the later one only */
+        case 25: vh_buf_adds(b, "CHAN?"); *flags |= 16; break;                                                                                   /* relative: defined only after a TEST: unit */
         default: vh_buf_adds(b, "SYST:SUB:Q3?"); *flags |= 1 | 8; break;
     }
 }
@@ -186,6 +193,7 @@ static void p0_run(uint64_t idx, vh_rng_t * rng) {
     if (fa & 1) vh_count("A.responds", 1);
     if (overrun) vh_count("A.overrun_with_pending_bytes", 1);
     if (fb & 16) vh_count("B.uses_relative_header", 1);
+    if ((fa & 128) && (fb & 64)) vh_count("pairs.A_ran_the_later_of_two_overlapping_entries_B_is_accepted_by_both", 1);
     if (fb & 1) vh_count("B.responds", 1);
     if (fb & 4) vh_count("B.streams_block", 1);
     if ((fa & 4) && (fb & 32)) vh_count("B.block_data_without_header_after_unfinished_block", 1);
@@ -260,6 +268,6 @@ int main(int argc, char ** argv) {
     static const vh_phase_t phases[] = { { "pairs", p0_count, p0_run }, { "units within one message", p1_count, p1_run } };
     vh_decoy_enable(7); vh_require("decoy.messages_run_on_a_second_context"); vh_require("pairs.direct_line_parse_same_length"); vh_require("unit.X_raises_errors"); vh_require("unit.block_data_without_header_after_unfinished_block"); vh_require("unit.both_units_raise_errors");
     vh_require("A.sequence_of_messages"); vh_require("A.raises_errors"); vh_require("A.leaves_block_unfinished_or_overlong"); vh_require("A.ends_with_compound_path");
-    vh_require("A.overrun_with_pending_bytes"); vh_require("A.overrun_with_pending_complete_units"); vh_require("B.uses_relative_header"); vh_require("B.responds"); vh_require("A.responds"); vh_require("B.block_data_without_header_after_unfinished_block");
+    vh_require("A.overrun_with_pending_bytes"); vh_require("pairs.A_ran_the_later_of_two_overlapping_entries_B_is_accepted_by_both"); vh_require("A.overrun_with_pending_complete_units"); vh_require("B.uses_relative_header"); vh_require("B.responds"); vh_require("A.responds"); vh_require("B.block_data_without_header_after_unfinished_block");
     return vh_main(argc, argv, "C09", phases, 2);
 }
